@@ -24,6 +24,25 @@ def can(w, op):
         return ws_state(w) == 'connecting'
     if k in ('wsdeliver', 'wsclose'):
         return ws_state(w) == 'open'
+    if k == 'connect':
+        # environment assumption: one connect() at a time, and a new cycle only after the
+        # tasks of the previous one have ended (i.e. once wait() would return)
+        if any(c['name'] == 'connect' and not c['done'] for c in w.calls.values()):
+            return False
+        return tasks_idle(w)
+    return True
+
+
+def tasks_idle(w):
+    c = w.client
+    for t in (c.read_loop_task, c.write_loop_task):
+        if t is None:
+            continue
+        if hasattr(t, 'is_alive'):
+            if t.is_alive():
+                return False
+        elif hasattr(t, 'done') and not t.done():
+            return False
     return True
 
 
